@@ -77,6 +77,6 @@ func main() {
 			cfgs = append(cfgs, rig.Cfg{Policy: "gradual", DownAfter: da, LagLimit: 10, W: wm[0], M: wm[1], Start: start})
 		}
 	}
-	rig.Main(&rig.Plan{ID: "C27", Level: "model_checking", Configs: cfgs, Depth: 5, FullDepth: 2, Oracle: oracle,
+	rig.Main(&rig.Plan{ID: "C27", Level: "model_checking", Configs: cfgs, Depth: 6, FullDepth: 2, Oracle: oracle,
 		Assume: []string{"'taken down by the circuit breaker' = the breaker fired since the replica was last up; 'latest fuse' = the latest time the breaker fired"}})
 }
